@@ -688,6 +688,27 @@ func (e *Eval) compile(node ast.Node) error {
 		//
 		patches := []int{}
 
+		// The value we're switching upon is compiled once
+		// for every case-expression.  If there are none - a
+		// switch with only a default-block, or with no blocks
+		// at all - it would never be compiled, and an error
+		// in it would go unreported.  Compile it now, and
+		// discard the code.
+		tested := false
+		for _, opt := range node.Choices {
+			if !opt.Default && len(opt.Expr) > 0 {
+				tested = true
+			}
+		}
+		if !tested {
+			size := len(e.instructions)
+			err := e.compile(node.Value)
+			if err != nil {
+				return err
+			}
+			e.instructions = e.instructions[:size]
+		}
+
 		// We have to assemble each choice
 		for _, opt := range node.Choices {
 
